@@ -28,6 +28,10 @@ def capacity(F, S):
     eng.analyze(fn, frozenset())
     stores = sorted([nd for nd in fn.nodes if is_store(nd) and "subtreeCount" in repr(fn.term(fn.kids(nd["id"])[0]))], key=lambda n: n["id"])
     if not stores:
+        # the counting may have been moved into a helper / lambda the function calls: then the refusal and the store travel
+        # together, and what matters is R-ATOMIC above (a later call must not be able to refuse after an earlier call counted)
+        if any(o.status == "violated" for o in out):
+            return out
         raise AnalysisBroken("UpdateCodeCount: no count store found")
     site = final_site_facts(eng, fn, stores[0]["id"]) or set()
     rec = F.record(AH)
@@ -87,9 +91,23 @@ def root_counted(F, S):
                     st = False
             elif nd["k"] == "BinaryOperator" and nd.get("op") == "=" and fn.term(fn.kids(nid)[0]) == cur:
                 st = False
+            elif nd["k"] in CALLS and len(nd.get("args", [])) >= 1 and any(fn.term(a) == cur for a in nd["args"]) and counts_its_argument(nd):
+                st = True
             elif nd["k"] == "DeclStmt" and any(("var", d.get("n"), d.get("d")) == cur for d in nd.get("decls", [])):
                 st = False
         return st
+    def counts_its_argument(call):
+        # a helper / lambda that increments subtreeCount[<its parameter>]
+        for h in F.callees(call):
+            if not h.cfg:
+                continue
+            for i, p in enumerate(h.params):
+                if i < len(call["args"]) - (1 if call["k"] == "CXXOperatorCallExpr" else 0) + (1 if call["k"] == "CXXOperatorCallExpr" else 0):
+                    pv = ("var", p["n"], p["d"])
+                    for x in h.nodes:
+                        if x["k"] == "UnaryOperator" and x.get("op") == "++" and h.term(h.kids(x["id"])[0]) == ("idx", ("mem", ("this",), "subtreeCount"), pv):
+                            return True
+        return False
     IN = {g.entry: False}
     OUT = {}
     changed = True
@@ -230,6 +248,19 @@ def verifiers_first(F, S, inv):
             out.append(ok("R-MUSTCALL", inst, fn.loc(first["id"]), fn.qn, req, "entailed at %s" % fn.loc(first["id"])))
         else:
             out.append(bad("R-MUSTCALL", inst, fn.loc(first["id"]), fn.qn, req, "facts: %s" % facts_txt(site)))
+        # a signed symbol type has values below 0 as well: they must be refused too (an unsigned type has none)
+        prm = fn.params[dps[0]]
+        inst2 = "%s::%s#symbol-not-negative" % (AH, fn.name)
+        req2 = "a negative symbol is refused before the first table access (only needed when the symbol type is signed)"
+        if not prm.get("is"):
+            out.append(ok("R-MUSTCALL", inst2, fn.loc(first["id"]), fn.qn, req2, "symbol type %s is unsigned" % prm.get("ct"), nontrivial=False))
+        elif any((f[0] == "<=" and f[1][0] == "const" and f[1][1] >= 0 and f[2] == code) or
+                 (f[0] == "<" and f[1][0] == "const" and f[1][1] >= -1 and f[2] == code) for f in site):
+            # (an explicit fact is required: the entailment engine treats atoms as non-negative quantities)
+            out.append(ok("R-MUSTCALL", inst2, fn.loc(first["id"]), fn.qn, req2, "0 <= symbol entailed"))
+        else:
+            out.append(bad("R-MUSTCALL", inst2, fn.loc(first["id"]), fn.qn, req2,
+                           "the symbol type is %s (signed): `symbol >= terminalNodeCount` alone lets negative symbols through, which index the table below the leaves" % prm.get("ct")))
     return out, total
 
 
